@@ -697,6 +697,34 @@ func c09Sequences(c *core.Ctx) {
 			}
 		}
 	}
+	// (c) routes added to a legacy router by hand (Router.AddRoute): the route that was added is the one handed out
+	if d := mk(gen.S{"/a": gen.S{"get": op("getA")}}, nil); d != nil {
+		if r0, err := legacy.NewRouter(d); err == nil {
+			lr0, _ := r0.(*legacy.Router)
+			added := &routers.Route{Spec: d, Path: "/added/{x}", Method: "GET", Operation: d.Paths.Value("/a").Get, PathItem: d.Paths.Value("/a")}
+			desc := "legacy Router.AddRoute(GET /added/{x}) then GET /added/7"
+			c.Begin(desc)
+			var aerr error
+			var route *routers.Route
+			var pp map[string]string
+			var ferr error
+			c.Eval()
+			if pi := core.Guard(func() {
+				aerr = lr0.AddRoute(added)
+				req, _ := http.NewRequest("GET", "http://h.t/added/7", nil)
+				route, pp, ferr = lr0.FindRoute(req)
+			}); pi != nil {
+				c.Violate(core.PanicFeatures(pi), c09Witness{Router: "legacy (AddRoute)", Request: "GET /added/7"}, pi.Stack)
+			} else if aerr == nil {
+				c.Distinct(desc)
+				c.Cover("history", "legacy AddRoute")
+				if ferr != nil || route != added || pp["x"] != "7" {
+					c.Violate(map[string]string{"kind": "not_routed", "router": "legacy", "history": "route added with AddRoute"}, c09Witness{Router: "legacy (AddRoute)", Templates: map[string]string{"/added/{x}": "GET"}, Request: "GET http://h.t/added/7", Got: fmt.Sprintf("route=%v params=%v err=%v", route, pp, ferr), Want: "the added route, x=7"},
+						desc+"\nFindRoute did not hand out the route that was added")
+				}
+			}
+		}
+	}
 	// (b)
 	docA := mk(gen.S{"/a": gen.S{"get": op("A.get")}, "/only-a": gen.S{"get": op("A.only")}}, nil)
 	docB := mk(gen.S{"/a": gen.S{"post": op("B.post")}, "/b/{x}": gen.S{"get": op("B.get"), "parameters": gen.Arr(gen.S{"name": "x", "in": "path", "required": true, "schema": gen.S{"type": "string"}})}}, nil)
